@@ -118,19 +118,52 @@ func c17KZGBatch(rep *Report, rng *RNG) {
 		var delta fr_bls12377.Element
 		delta.SetUint64(42)
 		p2[lie].ClaimedValue.Add(&p2[lie].ClaimedValue, &delta)
-		h, err := recursion.NewShort(ecc.BW6_761.ScalarField(), ecc.BLS12_377.ScalarField())
-		if err != nil {
-			rep.Fail("harness:kzg-hash", err.Error(), nil)
-			return
-		}
-		for i := 0; i < n; i++ {
-			h.Write(c2[i].Marshal())
-			h.Write(p2[i].H.Marshal())
-			h.Write(p2[i].ClaimedValue.Marshal())
-			h.Write(pt2[i].Marshal())
-		}
+		// first pass: the prover learns the folding coefficient the verifier derives for the batch with the false value and the
+		// quotients it has so far (observed through the hook; an honest-format prediction is used when nothing is observed)
 		var lambda fr_bls12377.Element
-		lambda.SetBytes(h.Sum(nil))
+		var seen []*big.Int
+		kzg.VerifTraceHook = func(ev string, limbs []frontend.Variable) {
+			if ev == "fold-multi-lambda" && seen == nil {
+				for _, l := range limbs {
+					b, _ := toBigVar(l)
+					seen = append(seen, b)
+				}
+			}
+		}
+		_ = inCircuit(c2, p2, pt2)
+		kzg.VerifTraceHook = nil
+		if seen != nil {
+			v := new(big.Int)
+			for i := len(seen) - 1; i >= 0; i-- {
+				v.Lsh(v, 64).Add(v, seen[i])
+			}
+			lambda.SetBigInt(v)
+			rep.Count("kzg-batch-adaptive:lambda-observed")
+			if h, err := recursion.NewShort(ecc.BW6_761.ScalarField(), ecc.BLS12_377.ScalarField()); err == nil {
+				for i := 0; i < n; i++ {
+					h.Write(c2[i].Marshal())
+					h.Write(p2[i].H.Marshal())
+					h.Write(p2[i].ClaimedValue.Marshal())
+					h.Write(pt2[i].Marshal())
+				}
+				var pred fr_bls12377.Element
+				pred.SetBytes(h.Sum(nil))
+				rep.Count(fmt.Sprintf("kzg-batch-adaptive:lambda-is-hash-of-all-inputs=%v", pred.Equal(&lambda)))
+			}
+		} else {
+			h, err := recursion.NewShort(ecc.BW6_761.ScalarField(), ecc.BLS12_377.ScalarField())
+			if err != nil {
+				rep.Fail("harness:kzg-hash", err.Error(), nil)
+				return
+			}
+			for i := 0; i < n; i++ {
+				h.Write(c2[i].Marshal())
+				h.Write(p2[i].H.Marshal())
+				h.Write(p2[i].ClaimedValue.Marshal())
+				h.Write(pt2[i].Marshal())
+			}
+			lambda.SetBytes(h.Sum(nil))
+		}
 		w := make([]fr_bls12377.Element, n) // folding weights 1, lambda, lambda^2
 		w[0].SetOne()
 		for i := 1; i < n; i++ {
